@@ -117,12 +117,60 @@ def dateSpec (t : Nat) : Bytes :=
   dec d ++ [32] ++ (monthNames.getD (m - 1) "").toUTF8.toList ++ [32] ++ dec y ++ [32] ++
   dec2 (tod / 3600) ++ [58] ++ dec2 (tod / 60 % 60) ++ [58] ++ dec2 (tod % 60) ++ str " -0000\n"
 
+/-! The fixed words of the field as explicit bytes (`String.toUTF8` does not reduce inside proofs); each is checked
+    against its text by `#guard` below. -/
+def wFrom : Bytes := [82, 101, 99, 101, 105, 118, 101, 100, 58, 32, 102, 114, 111, 109, 32]   -- "Received: from "
+def wHelo : Bytes := [32, 40, 72, 69, 76, 79, 32]                                              -- " (HELO "
+def wClose : Bytes := [41]                                                                     -- ")"
+def wOpen : Bytes := [32, 40]                                                                  -- " ("
+def wAt : Bytes := [64]                                                                        -- "@"
+def wBy : Bytes := [41, 10, 32, 32, 98, 121, 32]                                               -- ")\n  by "
+def wWith : Bytes := [32, 119, 105, 116, 104, 32]                                              -- " with "
+def wSemi : Bytes := [59, 32]                                                                  -- "; "
+
+#guard wFrom == str "Received: from " && wHelo == str " (HELO " && wClose == str ")" && wOpen == str " (" &&
+  wAt == str "@" && wBy == str ")\n  by " && wWith == str " with " && wSemi == str "; "
+
+/-- the field up to the date: "Received: from HOST [(HELO H) ](INFO@IP)\n  by LOCAL with PROTO; " with every variable
+    part cleaned (bytes outside the documented safe set `safeSpec` replaced by `?`) -/
+def receivedHead (proto host ip local_ : Bytes) (info helo : Option Bytes) : Bytes :=
+  wFrom ++ clean host ++
+  (match helo with | some h => wHelo ++ clean h ++ wClose | none => []) ++
+  wOpen ++ (match info with | some i => clean i ++ wAt | none => []) ++ clean ip ++
+  wBy ++ clean local_ ++ wWith ++ proto ++ wSemi
+
 /-- "Received: from HOST [(HELO H) ](INFO@IP)\n  by LOCAL with PROTO; DATE\n" with every variable part cleaned -/
 def receivedSpec (proto : String) (host ip local_ : Bytes) (info helo : Option Bytes) (t : Nat) : Bytes :=
-  str "Received: from " ++ clean host ++
-  (match helo with | some h => str " (HELO " ++ clean h ++ str ")" | none => []) ++
-  str " (" ++ (match info with | some i => clean i ++ str "@" | none => []) ++ clean ip ++
-  str ")\n  by " ++ clean local_ ++ str " with " ++ str proto ++ str "; " ++ dateSpec t
+  receivedHead (str proto) host ip local_ info helo ++ dateSpec t
+
+/-! ### well-formedness of a header field (RFC 822 §3.1–3.4) as far as data supplied by the peer can damage it
+
+    The field is a sequence of printable ASCII bytes; a line break inside it must be a fold (LF followed by SP or HT)
+    and its last byte is the LF that ends the field; comments `( … )` are balanced; there is no backslash (a quoted-pair
+    `\)` would hide the parenthesis that closes a comment, `\(` one that opens it) and no double quote (it would open a
+    quoted-string in which parentheses no longer delimit comments), no control byte, no 8-bit byte. -/
+
+def wfPlain (c : Byte) : Bool := 32 ≤ c && c < 127 && c != 92 && c != 34 && c != 40 && c != 41
+
+/-- `d` = current depth of comment nesting -/
+def wfAux : Nat → Bytes → Bool
+  | _, [] => false
+  | d, c :: r =>
+    if c = 10 then
+      (match r with
+       | [] => d == 0
+       | n :: _ => (n == 32 || n == 9) && wfAux d r)
+    else if c = 40 then wfAux (d + 1) r
+    else if c = 41 then d != 0 && wfAux (d - 1) r
+    else wfPlain c && wfAux d r
+
+def wf822 (field : Bytes) : Bool := wfAux 0 field
+
+/-- the first `n` lines of a byte string (each with its LF) -/
+def takeLines : Nat → Bytes → Bytes
+  | 0, _ => []
+  | _, [] => []
+  | n + 1, c :: r => if c = 10 then c :: takeLines n r else c :: takeLines (n + 1) r
 
 /-! ### hop counting (qmail-smtpd.8: "responsible for counting hops"): Received / Delivered-To header fields -/
 
